@@ -20,5 +20,5 @@ run C18 A C18
 run C20 A C20; run C20 B C20
 SEED_TIER=thorough run C09 B C09
 SEED_TIER=thorough run C16 B C16
-SEED_TIER=thorough run C18 B C16 C18
+SEED_TIER=thorough run C18 B C18 C16
 echo done > /tmp/seed_logs/all.done
